@@ -18,7 +18,7 @@ pub fn check() -> Check {
         spec: CheckSpec {
             id: "C06",
             level: "exploration",
-            rule: "one case = one TCP connection to a child process running the real Server over a real store: a generated stream of 20-200 well-formed SET/GET/DEL commands (keys: arbitrary UTF-8 incl. empty, multi-byte, CR, LF, NUL; values: arbitrary bytes 0 B..256 KB; DEL with 1-4 keys incl. repeats) is sent under a drawn segmentation (one byte at a time, random cuts, frame-aligned, all at once; optional pauses between segments so that the server really sees partial frames) and pipelining depth (1, 2-8, whole stream, whole stream followed by a half-close of the client's sending side before it reads anything, or 'overhang': each write carries the rest of one request and the first bytes of the next and the client waits for the reply), and the received byte stream must equal, byte for byte, the reply stream the map model produces with the reference encoder (+OK, bulk, $-1, :n with every DEL key counted as it is deleted). Every stream starts by deleting its key pool, and is sent 2-3 times under different (segmentation, depth) settings. At the end of a worker the store is dumped through the child's control channel and compared with the model. Non-trivial/distinct = distinct (request stream hash, segmentation class, depth class) with at least one cut inside a frame or depth > 1.",
+            rule: "one case = one TCP connection to a child process running the real Server over a real store: a generated stream of 20-200 well-formed SET/GET/DEL commands (keys: arbitrary UTF-8 incl. empty, multi-byte, CR, LF, NUL; values: arbitrary bytes 0 B..256 KB; DEL with 1-4 keys incl. repeats) is sent under a drawn segmentation (one byte at a time, random cuts, frame-aligned, all at once; optional pauses between segments so that the server really sees partial frames) and pipelining depth (1, 2-8, whole stream, whole stream followed by a half-close of the client's sending side before it reads anything, or 'overhang': each write carries the rest of one request and the first bytes of the next and the client waits for the reply), and the received byte stream must equal, byte for byte, the reply stream the map model produces with the reference encoder (+OK, bulk, $-1, :n with every DEL key counted as it is deleted). Every eighth case adds a slow reader: one connection pipelines a SET of a 9-256 KB value and enough GETs of it for 12 MB of replies, pauses 0.3-0.9 s with a 32 KB receive buffer so that the server's socket writes are accepted only in part, then reads and compares everything. Every stream starts by deleting its key pool, and is sent 2-3 times under different (segmentation, depth) settings. At the end of a worker the store is dumped through the child's control channel and compared with the model. Non-trivial/distinct = distinct (request stream hash, segmentation class, depth class) with at least one cut inside a frame or depth > 1.",
             assumptions: vec!["the receiver-side split of TCP segments is influenced (TCP_NODELAY, pauses), not controlled; C08 controls it exactly at the Connection layer", "one server child per worker process; connections of one worker run one after another, so the model is a plain map"],
             death_is_violation: false,
         },
@@ -318,6 +318,58 @@ pub fn run_connection(port: u16, r: &mut Rng, cmds: &[Cmd], model: &mut HashMap<
     Ok((cut_inside || depth > 1, depth))
 }
 
+/// A client that pipelines many GETs of one large value and does not read for a while: the replies
+/// (12 MB and more) fill the socket buffers of both sides, so the server's writes are accepted by the
+/// kernel only in part and its handler has to come back with the rest. Every reply is still owed
+/// byte for byte.
+fn slow_reader(port: u16, r: &mut Rng, model: &mut HashMap<Vec<u8>, Vec<u8>>, counter: &mut u64, out: &mut Out) -> Result<Vec<u8>, Failure> {
+    use std::os::unix::io::AsRawFd;
+    let key = b"slow-reader-key".to_vec();
+    *counter += 1;
+    let size = *r.pick(&[9_000usize, 65_536, 70_000, 200_000, 262_144]);
+    let v = crate::seqeng::make_value(r, *counter, size);
+    let n_gets = 12_000_000 / (size + 16) + 1;
+    let stream = connect(port).map_err(|e| Failure { sig: "connect-failed", desc: format!("connect failed: {}", e) })?;
+    let sz: libc::c_int = 32 * 1024;
+    unsafe { libc::setsockopt(stream.as_raw_fd(), libc::SOL_SOCKET, libc::SO_RCVBUF, &sz as *const _ as *const libc::c_void, std::mem::size_of::<libc::c_int>() as u32) };
+    let mut tx = stream.try_clone().map_err(|e| Failure { sig: "connect-failed", desc: e.to_string() })?;
+    let mut rx = Rx::new(stream);
+    let mut req = Cmd::Set(key.clone(), v.clone()).encode();
+    for _ in 0..n_gets {
+        req.extend_from_slice(&Cmd::Get(key.clone()).encode());
+    }
+    req.extend_from_slice(&Cmd::Get(b"slow-reader-absent".to_vec()).encode());
+    model.insert(key.clone(), v.clone());
+    let w = std::thread::spawn(move || tx.write_all(&req).map(|_| tx));
+    std::thread::sleep(Duration::from_millis(r.range(300, 900)));
+    let one = encode(&RFrame::Bulk(v.clone()));
+    let deadline = Instant::now() + Duration::from_secs(60);
+    let mut expect_next = |rx: &mut Rx, want: &[u8], what: String| -> Result<(), Failure> {
+        let res = rx.need(want.len(), deadline);
+        let got: Vec<u8> = rx.buf.drain(..want.len().min(rx.buf.len())).collect();
+        if got != want {
+            let at = got.iter().zip(want.iter()).position(|(a, b)| a != b).unwrap_or(got.len().min(want.len()));
+            let (sig, how) = match res {
+                Ok(()) => ("wrong-reply", "the reply bytes differ"),
+                Err(ReadErr::Timeout) => ("no-reply", "no (complete) reply within 60 s"),
+                _ => ("connection-closed-on-wellformed-request", "the server closed the connection"),
+            };
+            return Err(Failure { sig, desc: format!("slow reader ({} pipelined GETs of a {} B value, read after a pause): {}: {}; first difference at byte {} of {}", n_gets, size, what, how, at, want.len()) });
+        }
+        Ok(())
+    };
+    expect_next(&mut rx, b"+OK\r\n", "reply to the SET".into())?;
+    for i in 0..n_gets {
+        expect_next(&mut rx, &one, format!("GET reply #{}", i))?;
+    }
+    expect_next(&mut rx, b"$-1\r\n", "reply to the GET of an absent key".into())?;
+    let _ = w.join();
+    out.count("slow_reader_connections", 1);
+    out.count("commands_verified", n_gets as u64 + 2);
+    out.count("reply_bytes_left_unread_before_reading", (n_gets * one.len()) as u64);
+    Ok(key)
+}
+
 fn worker(ctx: &Ctx, out: &mut Out) {
     let mut r0 = Rng::derive(ctx.seed, 0xC06_FFFF_0000 ^ ctx.shard);
     let dir = fresh_dir(&ctx.scratch, "store");
@@ -362,6 +414,20 @@ fn worker(ctx: &Ctx, out: &mut Out) {
                 Err(f) => {
                     let dead = srv.ended();
                     out.violation(f.sig, format!("case {}: {}{}", case, f.desc, dead.map(|d| format!(" [server process ended: {}]", d)).unwrap_or_default()), ctx.replay(case, json!({"commands_head": cmds.iter().take(30).map(|c| c.brief()).collect::<Vec<_>>()})));
+                    break 'cases;
+                }
+            }
+        }
+        if case % 8 == 5 {
+            ctx.breadcrumb(case, "slow reader");
+            out.evaluations += 1;
+            match slow_reader(srv.port, &mut r, &mut model, &mut counter, out) {
+                Ok(k) => {
+                    all_keys.insert(k);
+                }
+                Err(f) => {
+                    let dead = srv.ended();
+                    out.violation(f.sig, format!("case {}: {}{}", case, f.desc, dead.map(|d| format!(" [server process ended: {}]", d)).unwrap_or_default()), ctx.replay(case, json!({"slow_reader": true})));
                     break 'cases;
                 }
             }
